@@ -171,6 +171,10 @@ def synthetic(rng, wild=False):
     many = [(60 * (i - 100), bool(i % 5 == 3), 'A%02d' % (i % 40)) for i in range(200)]      # abbreviation offsets are bytes too
     Z.append(('many-types', W([ts(1970, 1, 1) + 30 * 86400 * (i + 1) for i in range(199)], list(range(1, 200)), many)))
     Z.append(('many-types-high-first', W([ts(1980), ts(1990), ts(2000)], [199, 130, 128], many)))
+    # every transition switches to a DST-flagged type (standard time only before the first one)
+    Z.append(('all-transitions-dst', W([ts(1941, 3, 1), ts(1941, 6, 1), ts(1941, 9, 1), ts(1942, 3, 1)], [1, 2, 1, 2],
+                                       [(3600, False, 'STD'), (7200, True, 'SUM'), (10800, True, 'DSU')])))
+    Z.append(('single-transition-to-dst', W([ts(1980, 4, 6, 7)], [1], [(-18000, False, 'EST'), (-14400, True, 'EDT')])))
     # an offset drop larger than the distance to the previous transition: the wall-clock positions of the transitions are
     # not ascending, yet no wall time has more than two pre-images
     U = ts(1985, 6, 1, 12)
